@@ -54,7 +54,7 @@ mod verif_replay_receive_loop_mod {
         let handle = launch_rdp_thread(fd, client.clone(), sync.clone(), tx).ok()?;
         let (dtx, drx) = channel();
         thread::spawn(move || { let _ = handle.join(); let _ = dtx.send(()); });
-        let ended = drx.recv_timeout(Duration::from_secs(4)).is_ok();
+        let ended = drx.recv_timeout(Duration::from_secs(6)).is_ok();
         // the shared client must be free again
         let released = ended && client.try_lock().is_ok();
         let _ = hold_tx.send(());
@@ -89,7 +89,7 @@ mod verif_replay_receive_loop_mod {
         let mut got = vec![];
         for tag in 1u8..4 {
             server_sock.write_all(&bitmap_pdu(tag)).ok()?;
-            match rx.recv_timeout(Duration::from_secs(3)) { Ok(b) => got.push(b.dest_left), Err(_) => break }
+            match rx.recv_timeout(Duration::from_secs(6)) { Ok(b) => got.push(b.dest_left), Err(_) => break }
         }
         // while the server is silent the thread waits in select: the GUI thread must be able to take the client
         thread::sleep(Duration::from_millis(300));
@@ -99,7 +99,7 @@ mod verif_replay_receive_loop_mod {
         server_sock.write_all(&bitmap_pdu(9)).ok()?;
         let (dtx, drx) = channel();
         thread::spawn(move || { let _ = handle.join(); let _ = dtx.send(()); });
-        let ended = drx.recv_timeout(Duration::from_secs(4)).is_ok();
+        let ended = drx.recv_timeout(Duration::from_secs(6)).is_ok();
         Some((got, free_while_waiting, ended))
     }
 
@@ -126,7 +126,7 @@ mod verif_replay_receive_loop_mod {
         for (what, bytes, close) in cases {
             match ends(bytes, close) {
                 None => { println!("replay infrastructure not usable here: no verdict"); return }
-                Some(ok) => assert!(ok, "4 s after {} the receive thread is still running or still holds the client", what)
+                Some(ok) => assert!(ok, "6 s after {} the receive thread is still running or still holds the client", what)
             }
         }
     }
